@@ -62,6 +62,20 @@ func genC09(g *gen) {
 				}
 			}
 		}
+		// operand lengths that differ: every path must panic (documented), whatever the kernel/generic dispatch
+		for _, ll := range [][2]int{{0, 1}, {1, 0}, {3, 4}, {16, 17}, {17, 16}, {0, 16}, {32, 0}} {
+			mkl := func(l int) []*big.Int {
+				v := make([]*big.Int, l)
+				for i := range v {
+					v[i] = pick()
+				}
+				return v
+			}
+			a, b := mkl(ll[0]), mkl(ll[1])
+			for _, op := range []string{"vadd", "vsub", "vmul", "vinner"} {
+				g.emit("C01 %s %s %s %s", name, op, hexList(a), hexList(b))
+			}
+		}
 		for _, l := range []int{112, 113, 127, 128, 129, 255, 256, 257, 1024 + 3} { // around the minimum sizes that switch implementation
 			v := make([]*big.Int, l)
 			w := make([]*big.Int, l)
